@@ -284,6 +284,8 @@ func Replay(t *testing.T, c Check, path string) {
 			t.Logf("   op#%d ex=%d %s %q len=%d err=%q fault=%s", op.N, op.Ex, op.Op, op.Key, len(op.Val), op.Err, op.Fault)
 			if op.Op == "set" && len(op.Val) > 0 && op.Val[0] == '[' {
 				t.Logf("        index = %s", op.Val)
+			} else if op.Op == "set" && os.Getenv("VERIF_DEBUG") == "2" {
+				t.Logf("        entry = %q", op.Val)
 			}
 		}
 		if obs.Leak != "" || obs.Fatal != "" {
